@@ -6,6 +6,8 @@
  * (ctx->btrace) did not fit into 50 GB inside the protocol TUs.  This model
  *   - checks the same preconditions (source readable, destination writable),
  *   - copies exactly when the length is the constant 4 (one backtrace word),
+ *   - with VP_MEMCPY_WORDS: copies exactly, as 16 guarded word copies (length must be a whole
+ *     number of words <= 64: asserted);
  *   - otherwise havocs dst[0..64) (a superset of the written range; n <= 64 and room for 64 bytes asserted) and re-establishes the copied bytes
  *     at the ghost indices g_k, g_hk and g_j.
  * Every behaviour of the real memcpy is a behaviour of the model (the real
@@ -23,18 +25,12 @@ vp_memcpy_ghost(void *dst, const void *src, size_t n)
 	uint8_t       *d = (uint8_t *) dst;
 	__CPROVER_assert(__CPROVER_r_ok(src, n), "memcpy source region readable");
 	__CPROVER_assert(__CPROVER_w_ok(dst, n), "memcpy destination region writeable");
-#ifdef VP_MG_V1 /* experiment only */
-	return (dst);
-#endif
 	if (n == 4) {
 		d[0] = s[0];
 		d[1] = s[1];
 		d[2] = s[2];
 		d[3] = s[3];
 	} else if (n > 0) {
-#ifdef VP_MG_V2 /* experiment only */
-		return (dst);
-#endif
 #ifdef VP_MEMCPY_WORDS
 		/* exact model for word-aligned copies of at most 16 words (backtraces): 16 guarded
 		 * word copies at constant offsets */
